@@ -29,6 +29,7 @@ REPLAY = os.environ.get('VERIF_REPLAY_DIR', os.path.join(HERE, 'replay'))
 LEDGER = os.path.join(HERE, 'baseline_obligations.json')
 FINDINGS = os.path.join(HERE, 'known_findings.json')
 TRUSTED = os.path.join(HERE, 'trusted_base.json')
+BASELINE_SRC = os.path.join(HERE, 'baseline_src')
 
 
 def log(*a):
@@ -46,26 +47,60 @@ def lemma_modules():
 def verus_verdict(tier, use_cache=True):
     """weave + verus on the whole crate; returns dict"""
     dropped = set()
-    for attempt in range(4):
-        vd = _verus_verdict_once(tier, use_cache, dropped)
-        # rustc-level errors (error codes) located inside inserted contract text: the contract no longer compiles against
-        # the changed source.  Drop those directives (recorded as lost hints) and verify the rest.
-        newdrop = set()
-        for j in vd['res'].get('diags', []):
-            if j.get('level') == 'error' and j.get('code'):
-                for sp in j.get('spans', []):
-                    ln = sp.get('line_start')
-                    if ln in vd['w'].ins_line and vd['w'].ins_line[ln] not in dropped:
-                        newdrop.add(vd['w'].ins_line[ln])
-        if not newdrop:
+    override = {}
+    HINT_KINDS = ('head', 'tail', 'after', 'before', 'loop', 'loopbody')
+    for attempt in range(8):
+        vd = _verus_verdict_once(tier, use_cache, dropped, override)
+        errs = [j for j in vd['res'].get('diags', []) if j.get('level') == 'error' and j.get('code')]
+        if not errs:
             break
-        dropped |= newdrop
+        # rustc-level errors: the woven text does not compile.  Attribute every error span to a module.
+        #  * error inside an inserted proof HINT (head/tail/after/before/loop...) of a module: drop that directive (recorded as a
+        #    lost hint) -- e.g. an invariant naming a loop variable that was renamed;
+        #  * error in a module's source text, in its contract-defining directives or in its generated layout text: the module's
+        #    current text does not fit its contracts any more.  Replace the module by its BASELINE text (baseline_src/, the
+        #    snapshot taken with the ledger) so that the other modules still get a verdict -- modular reasoning only needs the
+        #    module's contract.  Every obligation of a replaced module is undecided.
+        newdrop, bad = set(), set()
+        w_ = vd['w']
+        for j in errs:
+            for sp in j.get('spans', []):
+                ln = sp.get('line_start')
+                if ln in w_.src_line:
+                    bad.add(w_.src_line[ln][0])
+                elif ln in w_.ins_line:
+                    rep = w_.ins_line[ln]
+                    mmv = re.match(r'(\w+)\.vspec:\d+ //@ (\w+)', rep)
+                    if mmv and mmv.group(2) in HINT_KINDS and rep not in dropped:
+                        newdrop.add(rep)
+                    elif mmv:
+                        for cand in ('indicators/%s.rs' % mmv.group(1), '%s.rs' % mmv.group(1)):
+                            if os.path.exists(os.path.join(REPO, 'src', cand)):
+                                bad.add(cand)
+                    else:
+                        ml = re.search(r'layout (\w+)', rep)
+                        if ml:
+                            for rel2, info in getattr(w_, 'struct_files', {}).items():
+                                if ml.group(1) in info:
+                                    bad.add(rel2)
+        bad = set(rel for rel in bad if rel not in override and os.path.exists(os.path.join(BASELINE_SRC, rel))
+                  and open(os.path.join(BASELINE_SRC, rel)).read() != open(os.path.join(REPO, 'src', rel)).read())
+        if bad:
+            for rel in bad:
+                override[rel] = os.path.join(BASELINE_SRC, rel)
+            # directives dropped for a module that is now replaced are restored
+            dropped = set(d for d in dropped if not any(os.path.basename(rel)[:-3] + '.vspec' in d for rel in bad))
+            continue
+        if newdrop:
+            dropped |= newdrop
+            continue
+        break
     vd['compile_errors'] = [j.get('message', '')[:200] for j in vd['res'].get('diags', []) if j.get('level') == 'error' and j.get('code')]
     return vd
 
 
-def _verus_verdict_once(tier, use_cache, dropped):
-    w = W.weave(REPO, CONTRACTS, extra_modules=lemma_modules(), drop_directives=dropped)
+def _verus_verdict_once(tier, use_cache, dropped, override=None):
+    w = W.weave(REPO, CONTRACTS, extra_modules=lemma_modules(), drop_directives=dropped, override_src=override)
     fns = V.fn_table(w.text)
     rlimit = 80 if tier == 'quick' else 160
     key = hashlib.sha256((w.sha + '|rl%d' % rlimit).encode()).hexdigest()
@@ -299,6 +334,9 @@ def main():
             for oid in prev:
                 if oid.startswith('kani::') and oid not in obl and oid.split('::')[-1] in table and table[oid.split('::')[-1]]['tier'] != 'quick' and not os.environ.get('VERIF_LEDGER_THOROUGH'):
                     obl.append(oid)
+            import shutil
+            shutil.rmtree(BASELINE_SRC, ignore_errors=True)
+            shutil.copytree(os.path.join(REPO, 'src'), BASELINE_SRC)
             json.dump({'note': 'obligations discharged on the pinned tree after the fix: commits; regenerate deliberately with check.py --make-ledger',
                        'repo_head': os.popen('git -C %s rev-parse HEAD' % REPO).read().strip(), 'obligations': sorted(obl)}, open(LEDGER, 'w'), indent=1)
             print('ledger: %d obligations (%d failing excluded)' % (len(obl), len(bad)))
